@@ -374,7 +374,7 @@ func addFar(a, b Val) (X, bool) {
 	if gap < 1000 {
 		return X{}, false
 	}
-	if gap > 1<<24 {
+	if gap > 1<<28 {
 		panic(fmt.Sprintf("model: refusing an exponent gap of %d digits", gap))
 	}
 	lb := len(b.Digits)
